@@ -255,6 +255,21 @@ class Server(object):
             io.close()
 
 
+class RefusingPort(object):
+    """A loop-back port that refuses connections for as long as this object
+    lives: the socket is bound but never listens, so nothing else can take the
+    port meanwhile (a merely closed port could be re-used by another process
+    of a parallel run)."""
+
+    def __init__(self):
+        self.sock = socket.socket(socket.AF_INET, socket.SOCK_STREAM)
+        self.sock.bind(('127.0.0.1', 0))
+        self.port = self.sock.getsockname()[1]
+
+    def close(self):
+        self.sock.close()
+
+
 def closed_port():
     """A loop-back port on which nothing listens (connect is refused)."""
     s = socket.socket(socket.AF_INET, socket.SOCK_STREAM)
